@@ -5,7 +5,8 @@ import os
 ROOT = os.path.dirname(os.path.dirname(os.path.abspath(__file__)))
 
 HOOK_COMMITS = ["7a8ba4f"]
-FIX_COMMITS = ["4500ab7", "5737839", "2d5e69c", "bf43ee9", "0b45cfb", "823a22a", "a0bae4e", "a7c4305", "679711e", "6687037", "9f0056a", "8ebb5ae", "77c6db8", "a9e432f", "5be6b47"]
+FIX_COMMITS = ["4500ab7", "5737839", "2d5e69c", "bf43ee9", "0b45cfb", "823a22a", "a0bae4e", "a7c4305", "679711e", "6687037", "9f0056a", "8ebb5ae", "77c6db8", "a9e432f", "5be6b47",
+               "9204408", "62101af", "3d46141", "2ff2c50", "e379910", "1f6170d"]
 
 CHECKS = {
     "C01": dict(
@@ -13,21 +14,29 @@ CHECKS = {
              "small bounds (DiagramMachine) and proves the specification's own results well-typed; every dumped "
              "state and every simulated behaviour is replayed on the real library and TLC judges the projection of "
              "each returned diagram, and of every diagram constructed anywhere inside the library (hook in "
-             "Diagram.__init__, also during the repository's own tests), with Diagrams!FirstFailing.",
+             "Diagram.__init__, also during the repository's own tests), with Diagrams!FirstFailing. The machine is "
+             "instantiated at three signatures (monoidal, rigid, and the free category cat.Arrow as diagrams on one "
+             "wire); diagrams of the circuit, zx, tensor, cartesian and biclosed classes (drawn from the other models' "
+             "states) are put through the generic API under the hook; the constructor is also called with the same "
+             "boxes but other types (op retype).",
         note="Trusted: TLC, the 60-line projection harness/project.py, the hook (3 lines). Bounds in evidence.",
         ref="5/C01", technique="TLA+ spec + TLC, spec->code replay, code->spec trace validation (hooked constructions)"),
     "C02": dict(
         text="The strict monoidal operations are defined in Diagrams.tla from the statement; TLC checks the law set "
              "on those definitions for every reachable diagram, and every API result of the real library "
              "(>>, @, dagger, slices, indexing, constructor) on replayed states and histories must equal the "
-             "specified value (judge J02).",
+             "specified value (judge J02), in the monoidal, rigid and cat classes; in the circuit, zx, tensor, cartesian "
+             "and biclosed classes law instances are evaluated on real diagrams and judged on their projections by "
+             "Trace_ClassLaws.",
         note="Trusted: TLC, projection. Formal sums are covered by the Sum leg (see evidence.coverage.sums).",
         ref="5/C02", technique="TLA+ spec + TLC, replay of TLC states/behaviours, trace validation"),
     "C05": dict(
         text="Interchange is specified as the set of diagrams reachable by admissible adjacent exchanges "
              "(Diagrams!Move); TLC proves well-typedness/box preservation of every admissible exchange on all "
              "diagrams in bounds; every interchange(i, j, left) call on replayed states (all index pairs incl. "
-             "out-of-range, both preferences) is judged by TLC (J05), refusals included.",
+             "out-of-range, both preferences) is judged by TLC (J05), refusals included (a refusal needs an obstruction "
+             "on the way the requested preference takes); three signatures: seven generators, the two-generator "
+             "tie machine (every diagram of <= 3 boxes), rigid.",
         note="Trusted: TLC, projection. 'wired to' read as planar obstruction (DESIGN 5/C05).",
         ref="5/C05", technique="TLA+ spec + TLC, replay, trace validation"),
     "C06": dict(
